@@ -57,6 +57,11 @@ type c08hist struct {
 	actions []c08action
 	trans   map[string]bool
 	flags   map[string]bool
+
+	// C10 re-uses the history machinery with its own executor and extra per-step monitors
+	execFn       func(in ref.Instr, xs []tensor.Tensor) (tensor.Tensor, error, any)
+	skipValues   bool // do not compare values with the model (C10 compares with a twin run instead)
+	afterObserve func(step int, changed map[int]bool) bool
 }
 
 func (n *c08node) state() string {
@@ -156,7 +161,7 @@ func (h *c08hist) modelOp(in ref.Instr) *c08node {
 	}
 	n := &c08node{in: in, val: v}
 	switch {
-	case in.Op == "leaf":
+	case in.Op == "leaf" || in.Op == "full":
 		n.leaf, n.tracked = true, in.Tracked
 	case !ref.Differentiable[in.Op]: // comparison: fresh untracked
 		n.cmpOfSpent = anySpent
@@ -250,6 +255,8 @@ func (h *c08hist) observe(step int, changed map[int]bool) bool {
 		}
 		if changed[i] && g == nil {
 			// reset: the gradient was just dropped
+		} else if changed[i] && h.skipValues {
+			// value compared with the twin run instead
 		} else if changed[i] {
 			got, err := rt.Read(g)
 			if err != nil {
@@ -268,6 +275,9 @@ func (h *c08hist) observe(step int, changed map[int]bool) bool {
 		k.Add("states", "%s", n.state())
 	}
 	k.Count("tensor_observations", int64(len(h.nodes)))
+	if h.afterObserve != nil {
+		return h.afterObserve(step, changed)
+	}
 	return true
 }
 
@@ -304,21 +314,25 @@ func (h *c08hist) doOp(in ref.Instr) bool {
 		}
 	}
 	h.actions = append(h.actions, c08action{Kind: "op", Instr: in})
-	r, err, p := exec(in, xs)
+	ex := exec
+	if h.execFn != nil {
+		ex = h.execFn
+	}
+	r, err, p := ex(in, xs)
 	if p != nil || err != nil || r == nil {
 		k.Failf("step %d: %s%v failed: panic=%v err=%v", len(h.actions), in.Op, in.In, p, err)
 		return false
 	}
 	n.real = r
 	h.nodes = append(h.nodes, n)
-	if e := rt.Compare(r, n.val, 1e-12, 1e-12, nil, 0); e != nil {
+	if e := rt.Compare(r, n.val, 1e-12, 1e-12, nil, 0); e != nil && !h.skipValues {
 		k.Failf("step %d: forward value of %s%v: %v", len(h.actions), in.Op, in.In, e)
 		return false
 	}
 	class := "op"
-	if !ref.Differentiable[in.Op] && in.Op != "leaf" {
+	if !ref.Differentiable[in.Op] && in.Op != "leaf" && in.Op != "full" {
 		class = "cmp"
-	} else if in.Op == "leaf" {
+	} else if in.Op == "leaf" || in.Op == "full" {
 		class = "leaf"
 	}
 	h.trans[fmt.Sprintf("%v --%s--> %s", before, class, n.state())] = true
